@@ -16,11 +16,13 @@
      cfg_keys st           static well-formedness of the configuration: rp_all is a duplicate-free list of keys
                            among pos, area, ellipse axes, circularity, perimeter; rp_act is a sublist of rp_all;
                            iou_act -> iou_avail
-     frz k X s s'          ft s' = ft s  and  attr s' n k = attr s n k for every node n outside X
+     frz k X s s'          ft s' = ft s  and, for every n outside X,  has_node s' n = has_node s n  and
+                           attr s' n k = attr s n k
      efrz E s s'           ft s' = ft s  and  edge_attrs s' a b = edge_attrs s a b for every pair outside E
      nobody / noedge       the empty sets;  basic_nodes b / action_nodes a: the nodes that the recorded action(s)
                            add or delete;  op_nodes st o: the node an OAddNode / ODelNode names, the nodes added
-                           or deleted by the action an OUndo / ORedo replays, every node for OPaint (not covered)
+                           or deleted by the action an OUndo / ORedo replays, for OPaint nv t idx (paint_nodes)
+                           the labels the stroke overwrites and nv itself when nv is not yet a node
      rstate r              the state a call leaves behind, whether it returned (Ok) or raised (Err)
      VRp m                 "regionprops value of this key computed from mask m": the reference value
      iou_of st sg u v      the exact IoU of the masks of u and v in their own frames: the reference value
@@ -112,11 +114,25 @@ Theorem C10_frozen_user : forall st k,
   (forall n new, frz k nobody st (rstate (user_update_attrs st n new))).
 Proof. exact frozen_user_summary. Qed.
 
-(* one call of the public API (paint strokes: only the flags part, see op_nodes) *)
+(* a paint stroke (UserUpdateSegmentation with its rollback, and the caller's restore on failure) *)
+Theorem C10_frozen_paint : forall k st nv t idx T force,
+  cfg_keys st -> In k (rp_all (ft st)) -> ~ In k (rp_act (ft st)) ->
+  frz k (paint_nodes st nv t idx) st (rstate (paint st nv t idx T force)).
+Proof. exact frozen_paint_cfg. Qed.
+
+(* one call of the public API: edits, undo, redo, queries *)
 Theorem C10_frozen_step : forall st o k n,
   cfg_keys st -> In k (rp_all (ft st)) -> ~ In k (rp_act (ft st)) -> ~ op_nodes st o n ->
-  attr (fst (step st o)) n k = attr st n k /\ ~ In k (rp_act (ft (fst (step st o)))).
+  has_node (fst (step st o)) n = has_node st n /\ attr (fst (step st o)) n k = attr st n k /\
+  ~ In k (rp_act (ft (fst (step st o)))).
 Proof. exact frozen_step_attr. Qed.
+
+(* any history of such calls that never adds / deletes the node *)
+Theorem C10_frozen_run : forall k n ops st,
+  cfg_keys st -> In k (rp_all (ft st)) -> ~ In k (rp_act (ft st)) ->
+  (forall pre o post, ops = pre ++ o :: post -> ~ op_nodes (run st pre) o n) ->
+  has_node (run st ops) n = has_node st n /\ attr (run st ops) n k = attr st n k.
+Proof. exact frozen_run. Qed.
 
 (* the edge feature: the edge annotator's update is the identity, no basic action changes the attributes
    of an edge other than the one it adds / removes *)
@@ -217,6 +233,18 @@ Example C10_ex_ids :
   lookup KIou (edge_attrs (fst r3) 1 2) = Some (VIou 2 3).
 Proof. vm_compute. repeat split; reflexivity. Qed.
 
+(* the stroke of C10_ex_run overwrites background only and its label 2 is already a node: node 2 is outside
+   paint_nodes, so C10_frozen_step applies to it with k = area after the ODisable *)
+Example C10_ex_frozen_hyps :
+  let s1 := fst (step2 c10_st (ODisable [KArea])) in
+  cfg_keys s1 /\ In KArea (rp_all (ft s1)) /\ ~ In KArea (rp_act (ft s1)) /\
+  ~ op_nodes s1 (OPaint 2 1 [2] 1 false) 2 /\ ~ op_nodes s1 (OPaint 2 1 [2] 1 false) 1.
+Proof.
+  cbv zeta. split; [apply (C10_registry_step2 c10_st (ODisable [KArea]) c10_cfg_keys c10_W_reg)|].
+  split; [vm_compute; auto|]. split; [vm_compute; intros [H|[]]; discriminate H|].
+  split; vm_compute; intros [[H1 H2]|[H|[]]]; discriminate.
+Qed.
+
 (* perimeter is not enabled, yet an attribute update that mentions it is refused (ValueError, state untouched) *)
 Example C10_ex_protected :
   do_upd_attrs c10_st 1 [(100, VTok 1); (KPerim, VTok 5)] = Err EValue c10_st /\
@@ -237,7 +265,9 @@ Print Assumptions C10_registry_step2.
 Print Assumptions C10_registry_run2.
 Print Assumptions C10_frozen_basic.
 Print Assumptions C10_frozen_user.
+Print Assumptions C10_frozen_paint.
 Print Assumptions C10_frozen_step.
+Print Assumptions C10_frozen_run.
 Print Assumptions C10_frozen_iou.
 Print Assumptions C10_enable_fresh_rp.
 Print Assumptions C10_enable_rp_fresh.
